@@ -224,7 +224,7 @@ func RunDaemonCase(c Case, baseDir string, d DaemonCfg) (evs []Event) {
 
 // daemonObserve records what can be read soundly while monitors run.
 func (r *Runner) daemonObserve(ev *Event) {
-	ev.Up, ev.AppUp = r.lsUp, r.conn != nil
+	ev.Up, ev.AppUp, ev.InTx, ev.Reader = r.lsUp, r.conn != nil, r.inTx, r.reader != nil
 	ev.Bg = r.lsUp
 	if r.app != nil {
 		app, seqPg, seq, lockN, err := AppContent(r.app, r.dict)
